@@ -31,7 +31,10 @@ RULE = ('families (disjoint): single = per option, every 4-tuple (file1,file2,fi
         'own line) x command-line override of the same key; syntax = per option further spellings (lists with '
         'commas and quotes, negative numbers as separate arguments, options given twice ...) alone / above / '
         'below another file x command line; reject = per option malformed values in a file or on the command line '
-        'in every layer position must end client.main with an error; api = ConfigSection.get, duplicate '
+        'in every layer position must end client.main with an error; multisec = one file with 2..3 (thorough 4) distinct sections in every order, an unknown key in '
+        'each section (numeric / non-numeric stray value), alone and above a file that fills the dictionaries: an '
+        'unknown key of a dictionary-less section changes nothing, one of a dictionary section goes to that '
+        'section only; api = ConfigSection.get, duplicate '
         'section/option, options added through the API, missing references, packaged rc file, plastex() entry; doc = documented defaults and '
         'the pinned option table.  Each case runs plasTeX.client.main on printed files/argv and compares the '
         'read-back of all options with the model.  non-trivial = at least one source sets a value (reread: at least '
@@ -1051,7 +1054,42 @@ def judge_api(case):
     return 'violation', [], exp, obs, 'public configuration API case %r' % what
 
 
-GENS = {'dictws': gen_dictws, 'syntax': gen_syntax, 'reject': gen_reject, 'api': gen_api, 'reread': gen_reread, 'single': gen_single, 'shapes': gen_shapes, 'pairs': gen_pairs, 'interp': gen_interp,
+# -- family 'multisec': ONE file with several sections in every order, an unknown key in each ------------------
+# Oracle (Model 'u' op): an unknown key of a section without a dictionary option changes no option at all; an
+# unknown key of a section with a dictionary option goes to that section's (first) dictionary option only.
+def gen_multisec(block, tier):
+    _, first = block
+    secs = M.section_order(True)                    # the 9 real sections + the synthetic renderer section
+    idx = M.opt_index(True)
+    maxn = 3 if tier == 'quick' else 4
+    firstopt = {}
+    for row in M.schema(True):
+        firstopt.setdefault(row[0], row)
+    for n in range(2, maxn + 1):
+        for rest in itertools.permutations([x for x in secs if x != secs[first]], n - 1):
+            order = [secs[first]] + list(rest)
+            dictless = [x for x in order if M.first_dict_option(x, True) is None]
+            for text in (0, 1):                     # stray value numeric / not numeric (in dictionary-less sections)
+                if text and not dictless:
+                    continue                        # same file as text == 0
+                for pos in (0, 1):                  # the file alone / above a file that fills the dictionaries
+                    ops = []
+                    for j, sec in enumerate(order):
+                        row = firstopt[sec]
+                        hasdict = M.first_dict_option(sec, True) is not None
+                        val = 'Draft %d' % j if (text and not hasdict) else '4%d' % j
+                        ops.append({'o': [sec, row[1]], 'v': ['u', 'zzstray-%s' % sec.replace('-', ''), val]})
+                        if (j + text) % 2 == 0 and not hasdict:
+                            ops.append({'o': [sec, row[1]], 'v': pair_file_value(row, j % 3, True)})
+                    files = [_flayer(ops)]
+                    if pos:
+                        low = [{'o': [r[0], r[1]], 'v': pair_file_value(r, 2, True)} for r in M.schema(True)
+                               if (r[2].startswith('dict') or r[2] == 'links') and r[0] in order]
+                        files.insert(0, _flayer(low))
+                    yield {'fam': 'multisec', 'synth': True, 'files': files, 'argv': []}
+
+
+GENS = {'multisec': gen_multisec, 'dictws': gen_dictws, 'syntax': gen_syntax, 'reject': gen_reject, 'api': gen_api, 'reread': gen_reread, 'single': gen_single, 'shapes': gen_shapes, 'pairs': gen_pairs, 'interp': gen_interp,
         'chain': gen_chain, 'doc': gen_doc}
 
 
@@ -1066,6 +1104,18 @@ def _sets_something(case):
 
 def _features(case, rep):
     """Vacuity counters, computed from the abstract case only."""
+    if case.get('fam') == 'multisec':
+        seen_dict = False
+        hit = False
+        for op in case['files'][-1]['ops']:
+            if op['v'][0] != 'u':
+                continue
+            if M.first_dict_option(op['o'][0], True) is not None:
+                seen_dict = True
+            elif seen_dict:
+                hit = True
+        if hit:
+            rep.count('stray_key_in_dictless_section_after_dict_section')
     setters = {}
     for i, layer in enumerate(case.get('files', [])):
         if layer and layer.get('st') == 'ok':
@@ -1162,6 +1212,8 @@ def run(tier, seed, rep):
             if row[2] in ('str', 'list'):
                 blocks.append(('interp', synth, oi, tier))
     nmenu, maxlen = reread_params(tier)
+    for i in range(len(M.section_order(True))):
+        blocks.append(('multisec', i, tier))
     blocks.append(('reread', -1, -1, tier))
     for i in range(nmenu):
         for j in range(-1, nmenu):
@@ -1191,4 +1243,4 @@ def run(tier, seed, rep):
                        'file_bool_false_spelling': 1000, 'dict_routed_lines': 100, 'interpolation_refs': 1000,
                        'list_from_several_sources': 100, 'cli_falsy_value': 100, 'unknown_key_lines': 100,
                        'fam_reread': 1000, 'fam_dictws': 1000, 'fam_syntax': 500, 'fam_reject': 500,
-                       'fam_api': len(API_CASES), 'dict_inline_blank_placements': 1000, 'reread_histories_with_stale_cache_chance': 200}}
+                       'fam_api': len(API_CASES), 'fam_multisec': 2000, 'stray_key_in_dictless_section_after_dict_section': 500, 'dict_inline_blank_placements': 1000, 'reread_histories_with_stale_cache_chance': 200}}
